@@ -36,11 +36,11 @@ Inductive label :=
 (* transport/transport.go: Transport.Close *)
 | L_tclose_lock | L_tclose_impl_close | L_tclose_unlock
 (* channel/read.go: Channel.Read and its callers ReadUntil... *)
-| L_chread_errs | L_chread_exited | L_chread_dequeue | L_op_ctx_check | L_op_sleep | L_op_return
+| L_chread_errs | L_chread_exited | L_chread_dequeue | L_op_ctx_check | L_op_return
 (* driver/netconf *)
 | L_nclose_done_once | L_ncread_check_done | L_ncread_send_errs | L_ncread_sleep
 | L_rpc_go_poller | L_rpc_select | L_rpc_cancel
-| L_poll_ctx_err | L_poll_get_message | L_poll_sleep | L_poll_send_done | L_poll_defer_close_done
+| L_poll_ctx_err | L_poll_get_message | L_poll_send_done | L_poll_defer_close_done
 (* original code only *)
 | L_oread_send_errs | L_oread_defer_flag
 | L_oclose_close_errs | L_oclose_read_flag | L_oclose_go_sender | L_oclose_close_ch | L_oclose_select
@@ -52,10 +52,10 @@ Definition all_labels : list label :=
     L_read_defer_exited; L_tread_lock; L_tread_impl_read; L_tread_unlock;
     L_close_done_once; L_close_select; L_close_return;
     L_tclose_lock; L_tclose_impl_close; L_tclose_unlock;
-    L_chread_errs; L_chread_exited; L_chread_dequeue; L_op_ctx_check; L_op_sleep; L_op_return;
+    L_chread_errs; L_chread_exited; L_chread_dequeue; L_op_ctx_check; L_op_return;
     L_nclose_done_once; L_ncread_check_done; L_ncread_send_errs; L_ncread_sleep;
     L_rpc_go_poller; L_rpc_select; L_rpc_cancel;
-    L_poll_ctx_err; L_poll_get_message; L_poll_sleep; L_poll_send_done; L_poll_defer_close_done;
+    L_poll_ctx_err; L_poll_get_message; L_poll_send_done; L_poll_defer_close_done;
     L_oread_send_errs; L_oread_defer_flag;
     L_oclose_close_errs; L_oclose_read_flag; L_oclose_go_sender; L_oclose_close_ch; L_oclose_select;
     L_osender_send_done; L_osender_defer_close_ch;
@@ -66,16 +66,16 @@ Definition label_id (l : label) : nat :=
   | L_read_check_done => 0 | L_read_check_done2 => 1 | L_read_send_errs => 2 | L_read_sleep => 3
   | L_read_enqueue => 4 | L_read_defer_exited => 5 | L_tread_lock => 6 | L_tread_impl_read => 7
   | L_tread_unlock => 8 | L_close_done_once => 9 | L_close_select => 10 | L_close_return => 11
-  | L_tclose_lock => 12 | L_tclose_impl_close => 13 | L_tclose_unlock => 14
-  | L_chread_errs => 15 | L_chread_exited => 16 | L_chread_dequeue => 17 | L_op_ctx_check => 18
-  | L_op_sleep => 19 | L_op_return => 20 | L_nclose_done_once => 21 | L_ncread_check_done => 22
-  | L_ncread_send_errs => 23 | L_ncread_sleep => 24 | L_rpc_go_poller => 25 | L_rpc_select => 26
-  | L_rpc_cancel => 27 | L_poll_ctx_err => 28 | L_poll_get_message => 29 | L_poll_sleep => 30
-  | L_poll_send_done => 31 | L_poll_defer_close_done => 32 | L_oread_send_errs => 33
-  | L_oread_defer_flag => 34 | L_oclose_close_errs => 35 | L_oclose_read_flag => 36
-  | L_oclose_go_sender => 37 | L_oclose_close_ch => 38 | L_oclose_select => 39
-  | L_osender_send_done => 40 | L_osender_defer_close_ch => 41 | L_ochread_read_flag => 42
-  | L_onclose_send_done => 43 | L_oncread_send_errs => 44
+  | L_tclose_lock => 12 | L_tclose_impl_close => 13 | L_tclose_unlock => 14 | L_chread_errs => 15
+  | L_chread_exited => 16 | L_chread_dequeue => 17 | L_op_ctx_check => 18 | L_op_return => 19
+  | L_nclose_done_once => 20 | L_ncread_check_done => 21 | L_ncread_send_errs => 22
+  | L_ncread_sleep => 23 | L_rpc_go_poller => 24 | L_rpc_select => 25 | L_rpc_cancel => 26
+  | L_poll_ctx_err => 27 | L_poll_get_message => 28 | L_poll_send_done => 29
+  | L_poll_defer_close_done => 30 | L_oread_send_errs => 31 | L_oread_defer_flag => 32
+  | L_oclose_close_errs => 33 | L_oclose_read_flag => 34 | L_oclose_go_sender => 35
+  | L_oclose_close_ch => 36 | L_oclose_select => 37 | L_osender_send_done => 38
+  | L_osender_defer_close_ch => 39 | L_ochread_read_flag => 40 | L_onclose_send_done => 41
+  | L_oncread_send_errs => 42
   end.
 Definition label_eqb (a b : label) : bool := Nat.eqb (label_id a) (label_id b).
 
@@ -303,6 +303,10 @@ Definition net0 (st : cstate) : nat :=
 Definition lock0 (st : cstate) : nat :=
   match st with StBlocked | StDataArriving | StErrorArriving | StEOFArriving => 1 | _ => 0 end.
 Definition exited0 (st : cstate) : nat := match st with StEOF => 1 | _ => 0 end.
+(* error pending: the reader is parked in its hand-off select (CLI and NETCONF) and, for NETCONF,
+   so is Driver.read; after EOF the reader is gone and (NETCONF) Driver.read is parked likewise *)
+Definition rparked0 (st : cstate) : nat := match st with StIOErr => 1 | _ => 0 end.
+Definition parked0 (st : cstate) : nat := match st with StIOErr | StEOF => 1 | _ => 0 end.
 
 Definition sys_of (sc : scenario) : sys label :=
   let nc := is_nc (sc_kind sc) in
@@ -317,6 +321,7 @@ Definition sys_of (sc : scenario) : sys label :=
       (if nc && sc_user sc then poller_code else absent) ]
     (mkState
        [ reader_pc0 st; 0; 0; (if nc then ncreader_pc0 st else 0); 0; 0; 0 ]
+       [ rparked0 st; 0; 0; (if nc then parked0 st else 0); 0; 0; 0 ]
        [ 0; exited0 st; 0; 0; 0; 0 ]
        [ lock0 st; 0; exited0 st; 0; net0 st; 0; 0 ]
        0).
@@ -459,6 +464,7 @@ Definition old_sys_of (sc : scenario) : sys label :=
       (if sc_second sc then old_sender_code OCH_CH2 else absent) ]
     (mkState
        [ reader_pc0 st; 0; 0; (if nc then ncreader_pc0 st else 0); 0; 0; 0 ]
+       [ rparked0 st; 0; 0; (if nc then parked0 st else 0); 0; 0; 0 ]
        [ 0; 0; 0; 0; 0; 0 ]
        [ lock0 st; old_flag0 st; 0; 0; net0 st; 0; 0 ]
        0).
